@@ -3,6 +3,215 @@ import HapVerif.Drv.Common
 namespace HapVerif.C09
 open HapVerif.Drv
 
-def handle (_args : List String) (_impl : String) : Verdict := bad "C09-not-implemented"
+/-! Line protocol (harness/c09xns/c09_test.go); `h<hex>` = hex encoded byte string
+
+    C09 brn   <dns> <value> <allow>                     => o:<ns>:<name> | denied | invalid
+    C09 proto <value>                                   => <proto>:<content>
+    C09 get   <getter> <bits4> <dns> <value>            => o:<ns>:<name> | file | denied | invalid
+    C09 dyn   <static> <crt><ca><pw><svc>               => <bits4>
+    C09 site  <site> <src> <form> <static+bits4> <fu>   => t=<own|foreign|file|none>;r=<0|1>;u=<0|1>;b=<bits4> | PANIC
+
+  bits4 = crt ca passwd services.  dyn tokens: a allow, d deny, - absent, A "Allow", U "ALLOW",
+  x "yes", t "true", e "", s " allow", w "allowed".
+  site: tls tlstcp authtls authtlstcp securecrt secureca authsecret authurl authurlfe;
+  src: ing | svc (object carrying the annotation, namespace a); form: n own other file secother secown;
+  fu: namespace b converted its own ingress first (its userlist / backend exist).
+-/
+
+def hexVal (c : Char) : Option Nat :=
+  if '0' ≤ c ∧ c ≤ '9' then some (c.toNat - '0'.toNat)
+  else if 'a' ≤ c ∧ c ≤ 'f' then some (c.toNat - 'a'.toNat + 10)
+  else none
+
+def unhexL : List Char → Option Str
+  | [] => some []
+  | a :: b :: rest => do
+    let x ← hexVal a
+    let y ← hexVal b
+    let r ← unhexL rest
+    pure (Char.ofNat (x * 16 + y) :: r)
+  | _ => none
+
+def unhex (s : String) : Option Str :=
+  match s.toList with
+  | 'h' :: rest => unhexL rest
+  | _ => none
+
+def hexDigit (n : Nat) : Char := if n < 10 then Char.ofNat (n + 48) else Char.ofNat (n + 87)
+def hex (s : Str) : String :=
+  "h" ++ String.ofList (s.flatMap fun c => [hexDigit (c.toNat / 16), hexDigit (c.toNat % 16)])
+
+def showRes : Res → String
+  | .obj ns n => "o:" ++ hex ns ++ ":" ++ hex n
+  | .file _ => "file"
+  | .denied => "denied"
+  | .invalid => "invalid"
+
+def parseBits (s : String) : Option Bits :=
+  match s.toList with
+  | [a, b, c, d] =>
+    if [a, b, c, d].all (fun x => x == '0' || x == '1') then
+      some ⟨a == '1', b == '1', c == '1', d == '1'⟩
+    else none
+  | _ => none
+
+def bit (b : Bool) : String := if b then "1" else "0"
+def showBits (b : Bits) : String := bit b.crt ++ bit b.ca ++ bit b.pw ++ bit b.svc
+
+def parseGetter : String → Option Getter
+  | "tls" => some .tls | "ca" => some .ca | "pw" => some .pw | "svc" => some .svc | "dh" => some .dh
+  | _ => none
+
+/-- `o:<ns>:<name>` -/
+def parseObjRes (s : String) : Option (Str × Str) :=
+  match s.splitOn ":" with
+  | ["o", ns, n] => do pure (← unhex ns, ← unhex n)
+  | _ => none
+
+def dynTok : Char → Option (Option Str)
+  | '-' => some none
+  | 'a' => some (some "allow".toList)
+  | 'd' => some (some "deny".toList)
+  | 'A' => some (some "Allow".toList)
+  | 'U' => some (some "ALLOW".toList)
+  | 'x' => some (some "yes".toList)
+  | 't' => some (some "true".toList)
+  | 'e' => some (some [])
+  | 's' => some (some " allow".toList)
+  | 'w' => some (some "allowed".toList)
+  | _ => none
+
+def parseCM (s : String) : Option GlobalCM :=
+  match s.toList.mapM dynTok with
+  | some [a, b, c, d] => some { crt := a.getD [], ca := b.getD [], pw := c.getD [], svc := d.getD [] }
+  | _ => none
+
+/-- documented semantics of the settings: `allow` opens, everything else (missing, `deny`, not
+a supported value) denies; `--allow-cross-namespace` overrides the three secret keys only -/
+def specAllowed (static : Bool) (cm : GlobalCM) (k : Kind) : Bool :=
+  match k with
+  | .crt => static || allowOf cm.crt
+  | .ca => static || allowOf cm.ca
+  | .pw => static || allowOf cm.pw
+  | .svc => allowOf cm.svc
+
+structure SiteTok where
+  site : Site
+  tcp : Bool := false
+  label : String
+
+def parseSite : String → Option SiteTok
+  | "tls" => some ⟨.tls, false, "tls-secret-name"⟩
+  | "tlstcp" => some ⟨.tls, true, "tls-secret-name"⟩
+  | "authtls" => some ⟨.authTLS, false, "auth-tls-secret"⟩
+  | "authtlstcp" => some ⟨.authTLS, true, "auth-tls-secret"⟩
+  | "securecrt" => some ⟨.secureCrt, false, "secure-crt-secret"⟩
+  | "secureca" => some ⟨.secureCA, false, "secure-verify-ca-secret"⟩
+  | "authsecret" => some ⟨.authSecret, false, "auth-secret"⟩
+  | "authurl" => some ⟨.authURL, false, "auth-url-svc"⟩
+  | "authurlfe" => some ⟨.authURL, false, "auth-url-svc"⟩
+  | _ => none
+
+def nsA : Str := ['a']
+def nsB : Str := ['b']
+
+def kindTok : Kind → Str
+  | .crt => "crt".toList | .ca => "ca".toList | .pw => "pw".toList | .svc => "authsvc".toList
+
+/-- the value the harness writes for a form -/
+def formValue (k : Kind) (form : String) : Option Str :=
+  let n := kindTok k
+  match form with
+  | "n" => some n
+  | "own" => some (nsA ++ ['/'] ++ n)
+  | "other" => some (nsB ++ ['/'] ++ n)
+  | "file" => if k = .svc then none else some ("file:///F/local-".toList ++ n)
+  | "secother" => if k = .svc then none else some ("secret://b/".toList ++ n)
+  | "secown" => if k = .svc then none else some ("secret://a/".toList ++ n)
+  | _ => none
+
+/-- namespace b converted its own ingress first: userlist b/pw and backend b/authsvc exist -/
+def exFU : Existing :=
+  { userlist := fun ns n => ns == nsB && n == "pw".toList
+    backend := fun ns n => ns == nsB && n == "authsvc".toList }
+
+def targetOf (st : SiteTok) (r : Res) : String :=
+  match r with
+  | .obj ns _ => if ns = nsA then "own" else if ns = nsB then "foreign" else "none"
+  | .file _ => if st.site = .tls then "PANIC" else "file"
+  | _ => "none"
+
+def handle (args : List String) (impl : String) : Verdict :=
+  match args with
+  | ["brn", dns, value, allow] =>
+    match unhex dns, unhex value with
+    | some dns, some value =>
+      let m := buildResourceName dns value (allow == "1")
+      let viol := allow != "1" && dns != [] &&
+        (match parseObjRes impl with | some (ns, _) => ns != dns | none => false)
+      { model := showRes m, agree := showRes m = impl,
+        oracle := if viol then some "brn-cross-namespace" else none,
+        trivial := value.all (· != '/') }
+    | _, _ => bad "brn-parse"
+  | ["proto", value] =>
+    match unhex value with
+    | some value =>
+      let pc := getContentProtocol value
+      let m := hex pc.1 ++ ":" ++ hex pc.2
+      { model := m, agree := m = impl, oracle := none, trivial := pc.1 = sSecret && pc.2 = value }
+    | none => bad "proto-parse"
+  | ["get", g, bits, dns, value] =>
+    match parseGetter g, parseBits bits, unhex dns, unhex value with
+    | some g, some b, some dns, some value =>
+      let m := getterResolve g b dns value
+      let viol := !(getterAllow b g) && dns != [] &&
+        (match parseObjRes impl with | some (ns, _) => ns != dns | none => false)
+      { model := showRes m, agree := showRes m = impl,
+        oracle := if viol then some "getter-cross-namespace-read" else none,
+        trivial := value.all (· != '/') }
+    | _, _, _, _ => bad "get-parse"
+  | ["dyn", static, toks] =>
+    match parseCM toks, parseBits impl with
+    | some cm, some ib =>
+      let st := static == "1"
+      let m := buildGlobalDynamic st cm
+      let bad? := [Kind.crt, .ca, .pw, .svc].find? fun k => ib.get k && !(specAllowed st cm k)
+      { model := showBits m, agree := m = ib,
+        oracle := match bad? with
+          | some .svc => some (if st then "static-override-opens-services" else "invalid-value-allows")
+          | some _ => some "invalid-value-allows"
+          | none => none }
+    | some cm, none =>
+      { model := showBits (buildGlobalDynamic (static == "1") cm), agree := false,
+        oracle := if impl = "PANIC" then some "panic:global-config" else none }
+    | _, _ => bad "dyn-parse"
+  | ["site", site, src, form, set, fu] =>
+    match parseSite site, set.toList with
+    | some st, [s, c1, c2, c3, c4] =>
+      let static := s == '1'
+      let tok (c : Char) : Str := if c == '1' then sAllow else "deny".toList
+      let cm : GlobalCM := { crt := tok c1, ca := tok c2, pw := tok c3, svc := tok c4 }
+      let bits := buildGlobalDynamic static cm
+      let k := st.site.kind
+      match formValue k form with
+      | none => bad "site-form"
+      | some value =>
+        let ex := if fu == "1" then exFU else Existing.none
+        let fromIng := src == "ing"
+        let uses := siteUses st.site bits ex fromIng nsA value
+        let reads := siteReads st.site bits ex fromIng nsA value
+        let t := targetOf st uses
+        let r := match reads with | some (.obj ns _) => ns == nsB | _ => false
+        let m := if t = "PANIC" then "PANIC"
+                 else "t=" ++ t ++ ";r=" ++ bit r ++ ";u=" ++ bit (t == "foreign") ++ ";b=" ++ showBits bits
+        let allowed := specAllowed static cm k
+        -- the oracle looks at the IMPLEMENTATION's output only
+        let fields := impl.splitOn ";"
+        let has (x : String) := fields.contains x
+        { model := m, agree := m = impl,
+          oracle := oracle st.label k allowed (has "r=1") (has "u=1" || has "t=foreign") (impl == "PANIC"),
+          trivial := form == "n" || form == "own" }
+    | _, _ => bad "site-parse"
+  | _ => bad "C09"
 
 end HapVerif.C09
